@@ -515,6 +515,14 @@ func (w *World) clientPacket(t *Transport, p *Pkt) error {
 		ev["ok"] = true
 		w.Rec.Emit(ev)
 		return nil
+	case "writeErr":
+		// the write fails (e.g. an expired write deadline) but the connection stays open; nothing reaches the broker
+		ev["ok"] = false
+		w.Rec.Emit(ev)
+		if w.OnClientPacket != nil {
+			w.OnClientPacket(t, p, o)
+		}
+		return ErrWriteFailed
 	}
 	// processed by the broker
 	resp, deliv := w.process(t, p, ev)
@@ -706,6 +714,9 @@ func (w *World) process(t *Transport, p *Pkt, ev Event) ([]byte, []int) {
 	}
 	return nil, deliv
 }
+
+// ErrWriteFailed is returned by Write for the outcome "writeErr" (the transport stays open).
+var ErrWriteFailed = errors.New("netsim: write failed")
 
 // ErrTransportClosed is returned by Read/Write on a closed transport.
 var ErrTransportClosed = errors.New("netsim: transport closed")
